@@ -165,7 +165,7 @@ Definition ok_untouched (c : c08_case) : bool :=
 
 Definition ok_paths (c : c08_case) : bool :=
   match c_research c with
-  | Ok l => forallb (fun e => let '(p, r, g) := e in retrievable (p, r, got g)) l
+  | Ok l => forallb (fun e => let '(p, r, g) := e in retrievable (c_in c) (p, r, got g)) l
   | Raise e =>      (* research of something that is not a container: TypeError, nothing reported *)
       (exn_eqb e TypeError && match c_in c with ONode _ _ _ => false | _ => true end)
       || (exn_eqb e QueryError && c_qreraise c
@@ -176,7 +176,7 @@ Definition ok_paths (c : c08_case) : bool :=
 Definition paths_known (c : c08_case) : bool :=
   match c_research c with
   | Ok l => forallb (fun e => let '(p, r, g) := e in
-                       retrievable (p, r, got g) || crosses_set (collect_defs (c_in c)) (c_in c) p) l
+                       retrievable (c_in c) (p, r, got g) || crosses_set (collect_defs (c_in c)) (c_in c) p) l
   | Raise _ => false
   end.
 
